@@ -664,7 +664,14 @@ class DefaultModelInputConverter(ModelInputConverter):
     """
     if not self._converts_to_parameter:
       return None
-    elif not np.isfinite(value):
+    elif np.isnan(value):
+      return None
+    elif not np.isfinite(value) and not (
+        self._should_clip
+        and self.parameter_config.type == pyvizier.ParameterType.DOUBLE
+    ):
+      # NOTE: An infinite value of a DOUBLE parameter (e.g. a huge feature
+      # unscaled through exp()) is clipped to the bounds below.
       return None
     elif self.parameter_config.type == pyvizier.ParameterType.DOUBLE:
       # Input parameter was DOUBLE. Output is also DOUBLE.
